@@ -109,8 +109,49 @@ def spec_env(rep, ref, i):
     }
 
 
+def build_live_get(variant, i):
+    import html
+    import logging
+    import flask
+    from types import SimpleNamespace as NS
+    b = lambda k: bool(i[k])
+    seg_text = 'init' if b('seg_is_init') else (str(int(i['seg_value'])) if b('seg_is_number') else 'x7')
+    if b('seg_is_init') and b('seg_is_number'):
+        raise ValueError('the text cannot be both "init" and a number')
+    by_time = variant.endswith('-time')
+    variant = variant.split('-')[0]
+    mf = NS(representation=NS(encrypted=b('rep_encrypted')), content_type=variant)
+    stream = NS(timing_reference=None if b('no_timing_reference') else object())
+
+    class Opts(NS):
+        def update(self, **kw):
+            self.__dict__.update(kw)
+
+    def calc(mode, args, stream_):
+        if b('bad_options'):
+            raise ValueError('bad')
+        return Opts(encrypted=b('options_encrypted'), segmentTimeline=None)
+    fn = extract_method('dashlive/server/requesthandler/media_requests.py', 'LiveMedia', 'get',
+                        {'flask': flask, 'logging': logging, 'html': html, 'current_media_file': mf, 'current_stream': stream})
+    me = NS(calculate_options=calc,
+            generate_init_segment=lambda media, mode, options: NS(status_code=200, what='init', mode=mode),
+            generate_media_segment=lambda **kw: NS(status_code=200, what='media', args=kw))
+    env = {k: b(k) for k in ('rep_encrypted', 'seg_is_init', 'seg_is_number', 'no_timing_reference', 'bad_options', 'options_encrypted')}
+    env['seg_value'] = int(i['seg_value'])
+    app = flask.Flask('replay')
+
+    def call():
+        with app.test_request_context('/x'):
+            r = fn(me, 'live', 'stream', 'file', 'mp4', None, int(i['seg_value'])) if by_time else \
+                fn(me, 'live', 'stream', 'file', 'mp4', seg_text, None)
+        return NS(status=r.status_code, what=getattr(r, 'what', 'error'), mode=getattr(r, 'mode', None), args=getattr(r, 'args', None))
+    return {'env': env, 'old_env': dict(env), 'call': call}
+
+
 def build(key, variant, i):
     qual = key.split(':')[1]
+    if qual == 'LiveMedia.get':
+        return build_live_get(variant, i)
     if 'd' not in i:
         raise ValueError('model has no finite duration list (n too large or missing)')
     mode = 'vod' if variant.startswith(('vod', 'fixups')) else 'live'
